@@ -442,6 +442,10 @@ pub fn stream_mbuilder(out: &mut Out, seed: u64, thorough: bool) {
         vec![s(" a")],
         vec![s("a"), s(" a")],
         vec![s("a "), s("b")],
+        // several defects of the same kind in one list: WHICH name the error carries is behaviour too
+        vec![s("a,b"), s("c,d")],
+        vec![s("a"), s("b,"), s(",c")],
+        vec![s("b"), s("a"), s("b"), s("a")],
     ];
     let maxlen = if thorough { 4 } else { 3 };
     for (ni, names) in name_lists.iter().enumerate() {
